@@ -175,6 +175,7 @@ def fmt_shape(shape):
 
 
 GRIDS_QUICK = [
+    ([0, 1, 2, 3, 4, 5], [0, 1]), ([0, 1], [0, 1, 2, 3, 4]), ([0, 1], [0, 1]), ([2, 3.5, 4, 6], [1, 2]), ([0.5, 0.75], [-1, 0, 2]),    # ONE row / column / cell (after seed C08-13)
     ([0, 1, 2], [0, 1, 2]), ([0, 1, 2, 3], [0, 1, 2]), ([0, 1, 2], [0, 1, 2, 3]), ([0, 1, 2, 3], [0, 1, 2, 3]),
     ([0, 1, 3, 4], [0, 2, 3]),                       # non-uniform, origin 0, integer
     ([1, 2, 3], [0, 1, 2]), ([0, 1, 2], [2, 3, 4]), ([1, 2, 4], [1, 3, 4]),     # origin not at 0
@@ -243,6 +244,11 @@ def model_set_is_exactly_the_single_trunk_orthogons(g, replay=None):
                 continue
             # (b) cost bounds: returns a shape meeting the bound iff one exists; returned rectangles are its boxes
             objs = sorted({objective(r, carrier, idx, s, ratio) for s in spec})
+            if not objs:        # fewer cells than boxes: no shape exists, whatever the bound
+                (nd, _), rects_out, q = res
+                if len(rects_out) > 0:
+                    failures.append(dict(clause="returns_a_shape_iff_one_meets_the_cost_bound", xs=xs, ys=ys, occ=occ, k=k, bound=low, exists=False, returned=rects_out))
+                continue
             best = objs[-1]
             for d in {int(best), int(best) + 1, int(objs[len(objs) // 2])}:
                 exists = any(o >= d for o in objs)
